@@ -90,3 +90,13 @@ fn c06_status_codec__value_status() {
     if v >= 0 && v <= 2 { assert!(cb == v); } else { assert!(cb == 0); }
 }
 
+
+/// [C06.live-version-never-deleted-marker] all i32, loop-free => complete; gives a concrete counterexample
+#[kani::proof]
+fn c06_live_version__live_version() {
+    let v: i32 = kani::any();
+    let r = live_version(v);
+    assert!(r != -1);
+    assert!(v == -1 || r == v);
+    assert!(v != -1 || r == 0);
+}
